@@ -5,6 +5,7 @@ command-layer model (C06).
 -/
 import BV.Model.Ezsp.Rx
 import BV.Props.C06
+import BV.Proofs.Src.Proto
 namespace BV.Props.C08
 open BV.Cmd BV.Rx BV.Codec
 
@@ -148,5 +149,109 @@ theorem c08_still_works (s : St) (hi : C06.Inv s) (hfree : s.holder = none) (c c
 /-- every reachable state of the command layer satisfies the invariant these theorems assume -/
 theorem c08_reachable (seq0 : Nat) (is : List In) : C06.Inv (run { seq := seq0 } is).1 :=
   C06.c06_invariant seq0 is
+
+
+/-! ### the same clauses over the definition generated from `ProtocolHandler.__call__` (BV/Gen/SrcProto.lean)
+
+The receive path is translated from the syntax tree on every run, over the header parsers generated from EZSPv4 / v5 / v8;
+`BV.Proofs.Src.Proto` says what it does for every byte string by the model's classification `rxFrame`. -/
+section Src
+open BV.Py BV.Codec BV.Src.Proto BV.Proofs.Src.Proto
+
+/-- **malformed or unknown frames are contained** (source level): a frame too short for its header, with a frame ID the version does
+not define, or whose payload does not decode leaves every pending entry, every future and the callbacks untouched; the unknown ID
+is dropped without an exception, the other two raise (into the guard of `EZSP.frame_received`) -/
+theorem c08_src_malformed_contained (s : Proto) (d : List UInt8) :
+    (rxFrame s.version s.cmds d = .short → ∃ c, handler_call d s = (.error (.raised c), s)) ∧
+    (∀ id, rxFrame s.version s.cmds d = .unknown id → handler_call d s = (.ok (), s)) ∧
+    (∀ n, rxFrame s.version s.cmds d = .undecodable n → handler_call d s = (.error (.raised "ValueError"), s)) :=
+  ⟨call_short s d, call_unknown s d, call_undecodable s d⟩
+
+/-- **no wrong completion** (source level): whatever bytes arrive, a pending call's future is resolved with values only by a frame
+that decodes under the active version, carries the sequence number the call is registered under *and* the frame ID it expects -
+and then with exactly the decoded values -/
+theorem c08_src_no_wrong_completion (s : Proto) (d : List UInt8) (fid : Nat) (v : Vals)
+    (hp : s.futs[fid]? = some .pending) (hr : (handler_call d s).2.futs[fid]? = some (.result v)) :
+    ∃ sq id name tr, rxFrame s.version s.cmds d = .ok sq id name v tr ∧ s.awaiting.lookup sq = some (id, fid) ∧
+      name ≠ "invalidCommand" := by
+  have hne : ∀ {a : Vals}, (some PFut.pending : Option PFut) = some (PFut.result a) → False := by
+    intro a h; injection h with h; cases h
+  cases hc : rxFrame s.version s.cmds d with
+  | short =>
+    obtain ⟨c, e⟩ := call_short s d hc
+    rw [e, hp] at hr; exact (hne hr).elim
+  | unknown id => rw [call_unknown s d id hc, hp] at hr; exact (hne hr).elim
+  | undecodable n => rw [call_undecodable s d n hc, hp] at hr; exact (hne hr).elim
+  | ok sq id name vals tr =>
+    have hf := call_ok_futs s d sq id name vals tr hc
+    rw [hf] at hr
+    cases hl : s.awaiting.lookup sq with
+    | none => simp only [hl] at hr; rw [hp] at hr; exact (hne hr).elim
+    | some e =>
+      obtain ⟨eid, fid'⟩ := e
+      simp only [hl] at hr
+      by_cases hname : name = "invalidCommand"
+      · simp only [hname, ↓reduceIte] at hr
+        split at hr
+        · by_cases hq : fid' = fid
+          · subst hq
+            rw [List.getElem?_set] at hr
+            simp only [↓reduceIte] at hr
+            split at hr
+            · injection hr with h; cases h
+            · simp at hr
+          · rw [List.getElem?_set] at hr
+            simp only [hq, ↓reduceIte] at hr
+            rw [hp] at hr; exact (hne hr).elim
+        · rw [hp] at hr; exact (hne hr).elim
+      · simp only [hname, ↓reduceIte] at hr
+        split at hr
+        · rename_i hcond
+          simp only [Bool.and_eq_true, beq_iff_eq] at hcond
+          by_cases hq : fid' = fid
+          · subst hq
+            rw [List.getElem?_set] at hr
+            simp only [↓reduceIte] at hr
+            split at hr
+            · injection hr with h; injection h with h
+              subst h
+              exact ⟨sq, id, name, tr, rfl, by rw [hl, hcond.1], hname⟩
+            · simp at hr
+          · rw [List.getElem?_set] at hr
+            simp only [hq, ↓reduceIte] at hr
+            rw [hp] at hr; exact (hne hr).elim
+        · rw [hp] at hr; exact (hne hr).elim
+
+/-- **a callback is made only for a frame that decodes** (source level), exactly once, and only when no entry waits under the
+frame's sequence number -/
+theorem c08_src_callback_only_if_decodes (s : Proto) (d : List UInt8) (hne : (handler_call d s).2.trace ≠ s.trace) :
+    ∃ sq id name vals tr, rxFrame s.version s.cmds d = .ok sq id name vals tr ∧ s.awaiting.lookup sq = none ∧
+      (handler_call d s).2.trace = s.trace ++ [.callback name vals] := by
+  cases hc : rxFrame s.version s.cmds d with
+  | short => obtain ⟨c, e⟩ := call_short s d hc; rw [e] at hne; exact absurd rfl hne
+  | unknown id => rw [call_unknown s d id hc] at hne; exact absurd rfl hne
+  | undecodable n => rw [call_undecodable s d n hc] at hne; exact absurd rfl hne
+  | ok sq id name vals tr =>
+    have ht := call_ok_trace s d sq id name vals tr hc
+    cases hl : s.awaiting.lookup sq with
+    | none =>
+      rw [hl] at ht
+      exact ⟨sq, id, name, vals, tr, rfl, hl, by simpa using ht⟩
+    | some e =>
+      rw [hl] at ht
+      simp only [Option.isNone_some, Bool.false_eq_true, ↓reduceIte] at ht
+      exact absurd ht hne
+
+/-- non-vacuity: the hypotheses of the case theorems are met by a v8 handler with `nop` (ID 5) waiting under sequence number 7 and
+its reply `07 80 01 05 00` -/
+example : rxFrame 8 [⟨"nop", 5, [], []⟩] [7, 0x80, 1, 5, 0] = .ok 7 5 "nop" [] [] := by
+  simp [rxFrame, rxHeader, hdrOf, findById, deFields, Cmd.rxT]
+
+example : (handler_call [7, 0x80, 1, 5, 0]
+      { version := 8, cmds := [⟨"nop", 5, [], []⟩], awaiting := [(7, (5, 0))], futs := [.pending] }).2.futs[0]? = some (.result []) := by
+  rw [call_reply _ _ 7 5 0 "nop" [] [] (by simp [rxFrame, rxHeader, hdrOf, findById, deFields, Cmd.rxT]) (by simp) (by decide) (by simp)]
+  simp
+
+end Src
 
 end BV.Props.C08
